@@ -13,6 +13,12 @@ oer_encode(const asn_TYPE_descriptor_t *type_descriptor, const void *struct_ptr,
            asn_app_consume_bytes_f *consume_bytes, void *app_key) {
     ASN_DEBUG("OER encoder invoked for %s", type_descriptor->name);
 
+    if(!type_descriptor->op->oer_encoder) {
+        /* OER is not defined for this type */
+        asn_enc_rval_t er = {-1, type_descriptor, struct_ptr};
+        return er;
+    }
+
     /*
      * Invoke type-specific encoder.
      */
@@ -123,6 +129,11 @@ oer_open_type_put(const asn_TYPE_descriptor_t *td,
     size_t serialized_byte_count = 0;
     asn_enc_rval_t er;
     ssize_t len_len;
+
+    if(!td->op->oer_encoder) {
+        /* OER is not defined for this type */
+        return -1;
+    }
 
     er = td->op->oer_encoder(td, constraints, sptr, oer__count_bytes,
                              &serialized_byte_count);
